@@ -71,6 +71,22 @@ Variables plo phi : R.
 Hypothesis steps_pos : (0 < steps)%nat.
 Notation S_ := (snd_ steps).
 
+Lemma map_eval_sound (f : R -> R) (dom : R -> bool) p u r :
+  (forall a b, dom a = true -> dom b = true -> a <= b -> f a <= f b) -> (forall a b, dom a = true -> a <= b -> dom b = true) ->
+  S_ p u -> map_eval RN steps plo phi f dom p = Ok r -> S_ r (map f u).
+Proof.
+  intros Hf Hup IH. unfold map_eval.
+  match goal with |- (if ?c then _ else _) = _ -> _ => destruct c eqn:Hdom end; [|discriminate]. intros E.
+  destruct (S_len steps p _ IH) as (Hl & Hr & Hu).
+  apply andb_true_iff in Hdom. destruct Hdom as (DL & DR). rewrite forallb_forall in DL, DR.
+  unfold punary, mk_staircase in E. eapply mk_sound; [| |left|exact E]; rewrite ?map_length; auto.
+  apply (bounds_map_incr_dom f (fun a => dom a = true)); [exact Hf| | | |exact (proj2 IH)].
+  - apply Forall_forall. exact DL.
+  - apply Forall_forall. exact DR.
+  - apply Forall_forall. intros a Ha. destruct (in_some_step _ _ _ a (proj2 IH) Ha) as (j & Hj & Hb).
+    apply (Hup (nth j (fst p) 0)); [apply DL, nth_In; exact Hj|apply Hb].
+Qed.
+
 Theorem expression_sound : forall e r, leaves_ok steps e -> peval RN steps plo phi (erase e) = Ok r -> S_ r (sample e).
 Proof.
   induction e as [l r0 u|e IH c|e IH c|c e IH|e IH c|e IH|f dom e IH|o e1 IH1 e2 IH2]; intros r HL; cbn [erase peval sample leaves_ok] in *.
